@@ -16,7 +16,7 @@ rcontracts = []
 fcontracts = []
 
 # Measured on this machine with VERIF_JOBS=6 (z3 4.x QF_NRA / sympy).  Contracts listed here are claimed only in the thorough tier.
-THOROUGH = set()
+THOROUGH = {'glm_dot_bits_v3_f32', 'glm_dot_bits_v4_f32', 'glm_dot_bits_v3_f64', 'glm_dot_bits_v4_f64'}
 # Contracts the portfolio could not decide (UNKNOWN / timeout): not claimed, listed in P.not_covered with the reason.
 LEFT_OUT = {}
 
@@ -27,6 +27,13 @@ def R(fn, real, **kw):
 
 def F(fn, real, **kw):
     fcontracts.append((fn, real, kw))
+
+
+def alias(fn, new):
+    """the same shim under a second name, so that a family of clauses gets its own contract (own requires, own verdict)"""
+    sh = d.shims[fn]
+    d.shim(new, sh.ret, sh.ins, sh.body, outs=sh.outs)
+    return new
 
 
 def names(ins):
@@ -96,7 +103,8 @@ for tag in ('f32', 'f64'):
         # dot
         d.shim('glm_dot_' + sfx, T, a + b, 'return glm::dot(%s, %s);' % (mka, mkb))
         R('glm_dot_' + sfx, 'glm::dot(vec%d)  compute_dot  %s' % (L, GEO),
-          ensures=[('sum_of_products', 'RESULT == dot(%s, %s)' % (A, B)), ('symmetric', 'RESULT == dot(%s, %s)' % (B, A))])
+          ensures=[('sum_of_products', 'RESULT == dot(%s, %s)' % (A, B)), ('symmetric', 'RESULT == dot(%s, %s)' % (B, A)),
+                   ('cauchy_schwarz', 'RESULT * RESULT <= norm2(%s) * norm2(%s)' % (A, B))])
         # length
         d.shim('glm_length_' + sfx, T, a, 'return glm::length(%s);' % mka)
         R('glm_length_' + sfx, 'glm::length(vec%d)  compute_length  %s' % (L, GEO),
@@ -139,11 +147,14 @@ for tag in ('f32', 'f64'):
         UNIT = 'And(norm2(%s) == 1, norm2(%s) == 1, %s >= 0)' % (A, B, K)
         R('glm_refract_' + sfx, 'glm::refract(vec%d)  compute_refract  %s' % (L, GEO),
           ensures=[('formula_when_k_nonnegative', 'Implies(%s >= 0, And(eqv(out, vsub(vscale(%s, eta), vscale(%s, eta * %s + sqrt(%s))))))' % (K, A, B, D, K)),
-                   ('zero_vector_when_k_negative', 'Implies(%s < 0, And(%s))' % (K, ', '.join('out[%d] == 0' % i for i in range(L)))),
-                   ('snell_sines_for_unit_i_n', 'Implies(%s, eta * eta * (1 - %s * %s) == 1 - dot(%s, out) * dot(%s, out))' % (UNIT, D, D, B, B)),
-                   ('snell_tangential_part_scaled_by_eta', 'Implies(%s, And(eqv(vsub(out, vscale(%s, dot(%s, out))), vscale(vsub(%s, vscale(%s, %s)), eta))))' % (UNIT, B, B, A, B, D)),
-                   ('unit_length_for_unit_i_n', 'Implies(%s, norm2(out) == 1)' % UNIT),
-                   ('transmitted_side', 'Implies(%s, dot(%s, out) <= 0)' % (UNIT, B))])
+                   ('zero_vector_when_k_negative', 'Implies(%s < 0, And(%s))' % (K, ', '.join('out[%d] == 0' % i for i in range(L))))])
+        UNITR = [('i_unit', 'norm2(%s) == 1' % A), ('n_unit', 'norm2(%s) == 1' % B), ('no_total_reflection', '%s >= 0' % K)]
+        R(alias('glm_refract_' + sfx, 'glm_refract_snell_' + sfx), 'glm::refract(vec%d)  Snell\'s law  compute_refract  %s' % (L, GEO), requires=UNITR,
+          ensures=[('snell_sines', 'eta * eta * (1 - %s * %s) == 1 - dot(%s, out) * dot(%s, out)' % (D, D, B, B)),
+                   ('snell_tangential_part_scaled_by_eta', 'And(eqv(vsub(out, vscale(%s, dot(%s, out))), vscale(vsub(%s, vscale(%s, %s)), eta)))' % (B, B, A, B, D)),
+                   ('transmitted_side', 'dot(%s, out) <= 0' % B)])
+        R(alias('glm_refract_' + sfx, 'glm_refract_unit_' + sfx), 'glm::refract(vec%d)  unit result  compute_refract  %s' % (L, GEO), requires=UNITR,
+          ensures=[('unit_length', 'norm2(out) == 1')], timeout=300)
         # gtx/norm: length2, distance2
         d.shim('glm_length2_' + sfx, T, a, 'return glm::length2(%s);' % mka)
         R('glm_length2_' + sfx, 'glm::length2(vec%d)  glm/gtx/norm.inl' % L, ensures=[('is_dot_v_v', 'RESULT == dot(%s, %s)' % (A, A))])
@@ -169,7 +180,8 @@ for tag in ('f32', 'f64'):
                    ('formula', 'And(eqv(out[:%d], vsub(%s, vscale(%s, dot(%s, %s) / dot(%s, %s)))))' % (L, A, B, A, B, B, B))])
         # gtx/vector_angle: angle
         d.shim('glm_angle_' + sfx, T, a + b, 'return glm::angle(%s, %s);' % (mka, mkb))
-        UN = [('x_unit', 'norm2(%s) == 1' % A), ('y_unit', 'norm2(%s) == 1' % B)]
+        UN = [('x_unit', 'norm2(%s) == 1' % A), ('y_unit', 'norm2(%s) == 1' % B),
+              ('lemma_cauchy_schwarz', 'dot(%s, %s) * dot(%s, %s) <= norm2(%s) * norm2(%s)' % (A, B, A, B, A, B))]
         R('glm_angle_' + sfx, 'glm::angle(vec%d)  glm/gtx/vector_angle.inl' % L, requires=UN,
           ensures=[('acos_of_clamped_dot', 'RESULT == acos(%s)' % clampr('dot(%s, %s)' % (A, B))),
                    ('cos_of_result_is_dot', 'cos(RESULT) == dot(%s, %s)' % (A, B)),
@@ -185,6 +197,7 @@ for tag in ('f32', 'f64'):
       ensures=[('determinant_formula', 'And(eqv(out, cross(%s, %s)))' % (A, B)),
                ('orthogonal_to_first', 'dot(out, %s) == 0' % A), ('orthogonal_to_second', 'dot(out, %s) == 0' % B),
                ('lagrange_identity', 'norm2(out) == norm2(%s) * norm2(%s) - dot(%s, %s) * dot(%s, %s)' % (A, B, A, B, A, B)),
+               ('lemma_lagrange_identity_of_the_textbook_cross', 'norm2(cross(%s, %s)) == norm2(%s) * norm2(%s) - dot(%s, %s) * dot(%s, %s)' % (A, B, A, B, A, B, A, B)),
                ('right_handed', 'det([%s, %s, out]) >= 0' % (A, B))])
     d.shim('glm_cross_both_orders_' + tag, 'void', a + b, 'auto r = glm::cross(%s, %s); auto s = glm::cross(%s, %s); %s %s' % (
         mka, mkb, mkb, mka, vec_store(3, 'r'), vec_store(3, 's', base=3)), outs=[(T, 'out', 6)])
@@ -228,7 +241,8 @@ for tag in ('f32', 'f64'):
     d.shim('glm_orientedAngle3_' + tag, T, a + b + c, 'return glm::orientedAngle(%s, %s, %s);' % (mka, mkb, mkc))
     ANG = 'acos(%s)' % clampr('dot(%s, %s)' % (A, B))
     PAR = [('cos_is_even', 'cos(-%s) == cos(%s)' % (ANG, ANG)), ('sin_is_odd', 'sin(-%s) == -sin(%s)' % (ANG, ANG))]
-    UN = [('x_unit', 'norm2(%s) == 1' % A), ('y_unit', 'norm2(%s) == 1' % B)]
+    UN = [('x_unit', 'norm2(%s) == 1' % A), ('y_unit', 'norm2(%s) == 1' % B),
+          ('lemma_lagrange_identity', 'norm2(cross(%s, %s)) == norm2(%s) * norm2(%s) - dot(%s, %s) * dot(%s, %s)' % (A, B, A, B, A, B, A, B))]
     R('glm_orientedAngle3_' + tag, 'glm::orientedAngle(vec3, vec3, ref)  glm/gtx/vector_angle.inl', requires=UN + PAR,
       ensures=[('cos_of_result_is_dot', 'cos(RESULT) == dot(%s, %s)' % (A, B)),
                ('sin_squared_is_norm2_of_cross', 'sin(RESULT) * sin(RESULT) == norm2(cross(%s, %s))' % (A, B)),
@@ -249,15 +263,23 @@ for tag in ('f32', 'f64'):
         d.shim('glm_closestPointOnLine%d_%s' % (L, tag), 'void', p + s0 + s1, 'auto r = glm::closestPointOnLine(%s, %s, %s); %s' % (
             vec_make(L, tag, 'p'), vec_make(L, tag, 'a'), vec_make(L, tag, 'b'), vec_store(L, 'r')), outs=[(T, 'out', L)])
         DIR = 'vsub(%s, %s)' % (S1, S0)
-        TT = '(dot(vsub(%s, %s), %s) / norm2(%s))' % (Pp, S0, DIR, DIR)
-        R('glm_closestPointOnLine%d_%s' % (L, tag), 'glm::closestPointOnLine(vec%d)  glm/gtx/closest_point.inl' % L,
-          requires=[('segment_not_degenerate', 'norm2(%s) != 0' % DIR)],
+        PD = 'dot(vsub(%s, %s), %s)' % (Pp, S0, DIR)     # (p - a).(b - a); the textbook parameter is t = PD / |b - a|^2
+        DD = 'norm2(%s)' % DIR
+        base = 'glm_closestPointOnLine%d_%s' % (L, tag)
+        real = 'glm::closestPointOnLine(vec%d)  glm/gtx/closest_point.inl' % L
+        ND = [('segment_not_degenerate', '%s != 0' % DD)]
+        R(base, real, requires=ND,
           ensures=[('on_the_line', par('vsub(out, %s)' % S0, DIR, L)),
-                   ('within_the_segment', 'And(dot(vsub(out, %s), %s) >= 0, dot(vsub(out, %s), %s) <= norm2(%s))' % (S0, DIR, S0, DIR, DIR)),
-                   ('foot_of_perpendicular_when_strictly_inside', 'Implies(And(%s > 0, %s < 1), And(dot(vsub(%s, out), %s) == 0, And(eqv(out, vadd(%s, vscale(%s, %s))))))' % (TT, TT, Pp, DIR, S0, DIR, TT)),
-                   ('clamps_to_a', 'Implies(%s <= 0, And(eqv(out, %s)))' % (TT, S0)),
-                   ('clamps_to_b', 'Implies(%s >= 1, And(eqv(out, %s)))' % (TT, S1)),
-                   ('no_point_of_the_segment_is_closer', 'Implies(And(fresh("s") >= 0, fresh("s") <= 1), norm2(vsub(%s, out)) <= norm2(vsub(%s, vadd(%s, vscale(%s, fresh("s"))))))' % (Pp, Pp, S0, DIR))])
+                   ('within_the_segment', 'And(dot(vsub(out, %s), %s) >= 0, dot(vsub(out, %s), %s) <= %s)' % (S0, DIR, S0, DIR, DD)),
+                   ('clamps_to_a_when_t_le_0', 'Implies(%s <= 0, And(eqv(out, %s)))' % (PD, S0)),
+                   ('clamps_to_b_when_t_ge_1', 'Implies(%s >= %s, And(eqv(out, %s)))' % (PD, DD, S1))], timeout=300)
+        CLOSER = ('no_point_of_the_segment_is_closer', 'Implies(And(fresh("s") >= 0, fresh("s") <= 1), norm2(vsub(%s, out)) <= norm2(vsub(%s, vadd(%s, vscale(%s, fresh("s"))))))' % (Pp, Pp, S0, DIR))
+        R(alias(base, base.replace('Line', 'Line_inside_')), real + '  (0 < t < 1)',
+          requires=ND + [('projection_strictly_inside', 'And(%s > 0, %s < %s)' % (PD, PD, DD))],
+          ensures=[('residual_orthogonal_to_segment', 'dot(vsub(%s, out), %s) == 0' % (Pp, DIR)),
+                   ('is_a_plus_t_times_direction', 'And(eqv(vscale(out, %s), vadd(vscale(%s, %s), vscale(%s, %s))))' % (DD, S0, DD, DIR, PD)), CLOSER], timeout=300)
+        R(alias(base, base.replace('Line', 'Line_before_')), real + '  (t <= 0)', requires=ND + [('projection_before_a', '%s <= 0' % PD)], ensures=[CLOSER], timeout=300)
+        R(alias(base, base.replace('Line', 'Line_after_')), real + '  (t >= 1)', requires=ND + [('projection_after_b', '%s >= %s' % (PD, DD))], ensures=[CLOSER], timeout=300)
     # ------------------------------------------------------------------ vec2-only
     a, b = vec_ins(2, tag, 'a'), vec_ins(2, tag, 'b')
     A, B = V(a), V(b)
@@ -282,33 +304,74 @@ for tag, bits, one, ut in (('f32', 'll2c_f32_bits', '1.0f', 'u32'), ('f64', 'll2
     def neg_bits(x):
         return '(%s(%s) ^ %s)' % (bits, x, SIGN)
 
-    # Parameter order of the *_bits shims: the operands of the dot product first (N, I / Nref, I).  clang orders the operands
-    # of a commutative fmul by parameter rank, so the product n*i of the clause and of the extracted code is the same SAT
-    # sub-circuit (float multiplication is commutative, but SAT cannot see that through two multipliers).
+    W = '32' if tag == 'f32' else '64'
+
+    def fm(x, y):
+        return 'SPEC_FMUL%s(%s, %s)' % (W, x, y)
+
+    def same(x, y):
+        """bitwise equal, any NaN equal to any NaN"""
+        return '((%s != %s && %s != %s) || %s(%s) == %s(%s))' % (x, x, y, y, bits, x, bits, y)
+
+    def fdot(xs, ys):
+        """GLSL dot in GLM's evaluation order: (x + y) + z, and (x + y) + (z + w) for vec4"""
+        ps = [fm(x, y) for x, y in zip(xs, ys)]
+        if len(ps) == 4:
+            return '((%s + %s) + (%s + %s))' % tuple(ps)
+        r = ps[0]
+        for q in ps[1:]:
+            r = '(%s + %s)' % (r, q)
+        return r
+
+    def kexpr(dt):
+        """k = 1.0 - eta * eta * (1.0 - dot(N, I) * dot(N, I)) of the GLSL text, every product through the same abstraction as the code"""
+        return '(%s - %s)' % (one, fm(fm('eta', 'eta'), '(%s - %s)' % (one, fm(dt, dt))))
+
+    UF = ('fmul', 'sqrt')
+    # Two kinds of refract contracts.
+    #  *_bits_*: float products and sqrt are abstracted (code and clause alike, SPEC_FMUL) as uninterpreted functions, fmul
+    #            commutative: the clause holds for every interpretation, in particular IEEE; a FAILURE may carry inputs that do not
+    #            reproduce natively.  SAT/SMT cannot prove two separately encoded IEEE multipliers equivalent (probed: minisat,
+    #            cadical, kissat 4.0.1, z3: no answer in 10 CPU minutes for the scalar overload).
+    #  *_tir_*:  no abstraction; the clause is restricted to a region in which total internal reflection is certain whatever the
+    #            rounding (|dot(N,I)| <= 1/2 and |eta| >= 2 give k <= -2): decidable by SAT, counterexamples are real inputs.
     # scalar overloads
     d.shim('glm_refract_bits_s_' + tag, T, [(T, 'n'), (T, 'i'), (T, 'eta')], 'return glm::refract(i, n, eta);')
-    K = '(%s - eta * eta * (%s - (n * i) * (n * i)))' % (one, one)
-    F('glm_refract_bits_s_' + tag, 'glm::refract(genType)  total internal reflection  ' + GEO,
-      ensures=[('exact_zero_when_float_k_negative', '!(%s < %s) || %s(RESULT) == 0' % (K, zero, bits)),
-               ('compares_equal_to_zero_when_float_k_negative', '!(%s < %s) || RESULT == %s' % (K, zero, zero))])
-    d.shim('glm_faceforward_bits_s_' + tag, T, [(T, 'nref'), (T, 'i'), (T, 'n')], 'return glm::faceforward(n, i, nref);')
+    F('glm_refract_bits_s_' + tag, 'glm::refract(genType)  total internal reflection  ' + GEO, uf_float=UF,
+      ensures=[('exact_zero_when_float_k_negative', '!(%s < %s) || %s(RESULT) == 0' % (kexpr(fm('n', 'i')), zero, bits))])
+    d.shim('glm_refract_tir_s_' + tag, 'void', [(T, 'n'), (T, 'i'), (T, 'eta')], 'out[0] = glm::refract(i, n, eta); out[1] = glm::dot(n, i);', outs=[(T, 'out', 2)])
+    REGION = '(out[%d] >= -0.5 && out[%d] <= 0.5 && (eta >= 2 || eta <= -2))'
+    F('glm_refract_tir_s_' + tag, 'glm::refract(genType)  certain total internal reflection  ' + GEO,
+      ensures=[('exact_zero_when_abs_dot_le_half_and_abs_eta_ge_2', '!%s || %s(out[0]) == 0' % (REGION % (1, 1), bits))])
+    d.shim('glm_faceforward_bits_s_' + tag, 'void', [(T, 'nref'), (T, 'i'), (T, 'n')], 'out[0] = glm::faceforward(n, i, nref); out[1] = glm::dot(nref, i);', outs=[(T, 'out', 2)])
     F('glm_faceforward_bits_s_' + tag, 'glm::faceforward(genType)  sign test  ' + GEO,
-      ensures=[('n_bitwise_when_float_dot_negative', '!(nref * i < %s) || %s(RESULT) == %s(n)' % (zero, bits, bits)),
-               ('minus_n_bitwise_otherwise', '(nref * i < %s) || (n != n ? RESULT != RESULT : %s(RESULT) == %s)' % (zero, bits, neg_bits('n')))])
+      ensures=[('n_bitwise_when_float_dot_negative', '!(out[1] < %s) || %s(out[0]) == %s(n)' % (zero, bits, bits)),
+               ('minus_n_bitwise_otherwise', '(out[1] < %s) || (n != n ? out[0] != out[0] : %s(out[0]) == %s)' % (zero, bits, neg_bits('n')))])
+    d.shim('glm_dot_bits_s_' + tag, T, [(T, 'x'), (T, 'y')], 'return glm::dot(x, y);')
+    F('glm_dot_bits_s_' + tag, 'glm::dot(T, T)  bit-exact  ' + GEO, uf_float=('fmul',), ensures=[('is_the_float_product', same('RESULT', fm('x', 'y')))])
     for L in (2, 3, 4):
         vn, vi, vr = vec_ins(L, tag, 'n'), vec_ins(L, tag, 'i'), vec_ins(L, tag, 'r')
         sfx = 'v%d_%s' % (L, tag)
         mkn, mki, mkr = vec_make(L, tag, 'n'), vec_make(L, tag, 'i'), vec_make(L, tag, 'r')
-        # The shims also store glm::dot(N, I) / glm::dot(Nref, I) of the same arguments: after inlining clang merges it with the
-        # dot computed inside refract / faceforward (checked by the obligation itself: if it were a different computation the
-        # solver would have to prove two float multipliers equivalent and time out -> UNDECIDED, never a wrong verdict), so the
-        # branch condition of the clause is the extracted dot itself.
-        # refract(I, N, eta): the float k of the GLSL text
+        # dot, bit-exact: the float sum of the float products in the order (x + y) + z  /  (x + y) + (z + w)
+        d.shim('glm_dot_bits_' + sfx, T, vn + vi, 'return glm::dot(%s, %s);' % (mkn, mki))
+        F('glm_dot_bits_' + sfx, 'glm::dot(vec%d)  bit-exact  compute_dot  %s' % (L, GEO), uf_float=('fmul',),
+          ensures=[('is_the_float_sum_of_float_products', same('RESULT', fdot(names(vn), names(vi))))])
+        # refract(I, N, eta); out[L] = glm::dot(N, I), merged by clang with the dot inside refract (see below), pinned by glm_dot_bits_*
         d.shim('glm_refract_bits_' + sfx, 'void', vn + vi + [(T, 'eta')], 'auto r = glm::refract(%s, %s, eta); %s out[%d] = glm::dot(%s, %s);' % (
             mki, mkn, vec_store(L, 'r'), L, mkn, mki), outs=[(T, 'out', L + 1)])
-        K = '(%s - eta * eta * (%s - out[%d] * out[%d]))' % (one, one, L, L)
-        F('glm_refract_bits_' + sfx, 'glm::refract(vec%d)  total internal reflection  compute_refract  %s' % (L, GEO),
-          ensures=[('exact_zero_vector_when_float_k_negative', '!(%s < %s) || (%s)' % (K, zero, ' && '.join('%s(out[%d]) == 0' % (bits, i) for i in range(L))))])
+        F('glm_refract_bits_' + sfx, 'glm::refract(vec%d)  total internal reflection  compute_refract  %s' % (L, GEO), uf_float=UF,
+          ensures=[('exact_zero_vector_when_float_k_negative', '!(%s < %s) || (%s)' % (
+              kexpr('out[%d]' % L), zero, ' && '.join('%s(out[%d]) == 0' % (bits, i) for i in range(L))))])
+        # The *_tir_* and faceforward shims also store glm::dot of the same arguments: after inlining clang merges it with the dot
+        # computed inside refract / faceforward (if it did not, the solver would have to prove two float multipliers equivalent and
+        # time out -> UNDECIDED, never a wrong verdict), so the branch condition of the clause is the extracted dot itself, whose
+        # bit-exact value is pinned by glm_dot_bits_*.
+        d.shim('glm_refract_tir_' + sfx, 'void', vn + vi + [(T, 'eta')], 'auto r = glm::refract(%s, %s, eta); %s out[%d] = glm::dot(%s, %s);' % (
+            mki, mkn, vec_store(L, 'r'), L, mkn, mki), outs=[(T, 'out', L + 1)])
+        F('glm_refract_tir_' + sfx, 'glm::refract(vec%d)  certain total internal reflection  compute_refract  %s' % (L, GEO),
+          ensures=[('exact_zero_vector_when_abs_dot_le_half_and_abs_eta_ge_2', '!%s || (%s)' % (
+              REGION % (L, L), ' && '.join('%s(out[%d]) == 0' % (bits, i) for i in range(L))))])
         # faceforward(N, I, Nref); r = Nref
         d.shim('glm_faceforward_bits_' + sfx, 'void', vr + vi + vn, 'auto r = glm::faceforward(%s, %s, %s); %s out[%d] = glm::dot(%s, %s);' % (
             mkn, mki, mkr, vec_store(L, 'r'), L, mkr, mki), outs=[(T, 'out', L + 1)])
@@ -328,9 +391,9 @@ for fn, real, kw in rcontracts:
 for fn, real, kw in fcontracts:
     if fn in LEFT_OUT:
         continue
-    kw.setdefault('timeout', 300)
+    kw.setdefault('timeout', 900 if fn in THOROUGH else 300)
     kw.setdefault('unwind', 2)
-    kw.setdefault('backends', ('z3', 'sat'))
+    kw.setdefault('backends', ('sat',))
     kw.setdefault('tier', 'thorough' if fn in THOROUGH else 'quick')
     P.contract(fn, real, kind='F', **kw)
 
